@@ -39,6 +39,8 @@ def kind_of(obj):
         return "factor"
     if isinstance(obj, conditional.ConditionalGaussianPDF):
         return "cond"
+    if type(obj).__name__ in ("TruncatedGaussianMeasure", "TruncatedGaussianPDF"):
+        return "trunc"
     return "other"
 
 
@@ -49,7 +51,7 @@ FACTOR_ATTRS = ("Lambda", "nu", "ln_beta", "v", "g")
 
 def attrs_of(obj, kind=None):
     kind = kind or kind_of(obj)
-    names = {"pdf": MEASURE_ATTRS, "measure": MEASURE_ATTRS, "factor": FACTOR_ATTRS, "cond": COND_ATTRS}[kind]
+    names = {"pdf": MEASURE_ATTRS, "measure": MEASURE_ATTRS, "factor": FACTOR_ATTRS, "cond": COND_ATTRS}.get(kind, ())
     out = {}
     for n in names:
         v = obj.__dict__.get(n, None) if hasattr(obj, "__dict__") else getattr(obj, n, None)
